@@ -75,6 +75,7 @@ type FuncContract struct {
 	Aliases    []string
 	Sites      []*SiteSpec
 	FreeVars   []VarDecl // (closures) captured variables visible in the contract, by name
+	Implements []string // keys of interface-method contracts this method must refine
 	Deterministic bool // (extern functions) results are functions of the argument values only
 	Dead       bool // target does not exist (reported as unresolved)
 	Stable     bool // (interface / extern methods) the single result is a function of the receiver identity only
@@ -123,7 +124,7 @@ type ContractFile struct {
 var clauseKeywords = map[string]bool{
 	"property": true, "requires": true, "ensures": true, "modifies": true, "pure": true,
 	"safe": true, "loop": true, "assume": true, "trusted": true, "alloc_bound": true,
-	"holds": true, "spawned": true, "terminates": true, "alias": true, "callsite": true, "stable": true, "freevars": true, "deterministic": true,
+	"holds": true, "spawned": true, "terminates": true, "alias": true, "callsite": true, "stable": true, "freevars": true, "deterministic": true, "implements": true,
 }
 
 var labelRe = regexp.MustCompile(`\s:([A-Za-z_][A-Za-z0-9_]*)\s*$`)
@@ -358,6 +359,8 @@ func ParseContractFile(path string) (*ContractFile, error) {
 				k := strings.IndexAny(v, " \t")
 				cur.FreeVars = append(cur.FreeVars, VarDecl{v[:k], strings.TrimSpace(v[k+1:])})
 			}
+		case "implements":
+			cur.Implements = append(cur.Implements, strings.Fields(rest)...)
 		case "deterministic":
 			cur.Deterministic = true
 			cur.HasMod = true
